@@ -2,6 +2,7 @@
 from __future__ import annotations
 
 import ast
+import re
 from typing import List, Optional, Set, Tuple
 
 from ..absint import AbsInt
@@ -171,7 +172,7 @@ def r_who_cancel(ctx: Ctx, rule: str):
     effs = [e for e in ctx.effects(kinds=["cancel", "maybe-cancel"]) if ctx.in_pool(e.node.func)]
     rep.floor(rule, "Task.cancel sites", len(effs), 3)
     for e in effs:
-        hosts = ctx.hosts(e.node.func)
+        hosts = ctx.hosts_of(e.node)
         rep.ob(rule, "Task.cancel is called only by the three cancelling functions",
                hosts <= {"cancel", "_cancel_group_meta_tasks", "_cancel_and_remove_all_from_group"}, node=e.node, detail=f"on behalf of {sorted(hosts)}")
     for f in ctx.pool_funcs("cancel"):
@@ -239,6 +240,153 @@ def _collects_all_lookups(ctx: Ctx, f: FuncInfo, name: str, varargs: Optional[st
         full, _ = loop_body_always_runs(ctx, f, head[0], [a]) if head else (False, "")
         return full
     return None
+
+
+def value_sources(ctx: Ctx, frame: FuncInfo, env, e: Optional[ast.AST], _depth: int = 0) -> Set[str]:
+    """Where may the task denoted by e come from?  Tags: R / C / E (an entry of that task registry), META (a spawner table),
+    ? (not understood).  Follows locals, parameters of spliced helpers, loop variables, look-ups and helper results."""
+    from ..cfg import bind_args, strip_cast
+
+    if e is None or _depth > 10:
+        return {"?"}
+    e = strip_cast(e)
+    V = ctx.vals
+    p = ctx.eff.paths(frame).of(e)
+    p = ctx.eff.rebase(p, frame, env) if p is not None else None
+    if p is not None:
+        if "_group_meta_tasks_running" in p or "_meta_tasks_cancelled" in p:
+            return {"META"}
+        for fld, tag in REG_OF_FIELD.items():
+            if re.search(r"\." + fld + r"(\[\])+$", p):
+                return {tag}
+        if p.startswith("<ret:_get_running_task>"):
+            return {"R"}
+    if isinstance(e, ast.IfExp):
+        return value_sources(ctx, frame, env, e.body, _depth + 1) | value_sources(ctx, frame, env, e.orelse, _depth + 1)
+    if isinstance(e, ast.Constant) and e.value is None:
+        return set()
+    if isinstance(e, ast.Name):
+        sc = ctx.an.scope(frame)
+        if e.id in sc.params and env and e.id in env and not sc.defs.get(e.id):
+            caller, arg, cenv = env[e.id]
+            return value_sources(ctx, caller, cenv, arg, _depth + 1)
+        out: Set[str] = set()
+        hows = sc.defs.get(e.id, [])
+        if not hows:
+            return {"?"}
+        for h in hows:
+            if h[0] == "assign":
+                out |= value_sources(ctx, frame, env, h[1], _depth + 1)
+            elif h[0] == "ann":
+                out |= value_sources(ctx, frame, env, h[2], _depth + 1)
+            elif h[0] == "iter":
+                out |= element_sources(ctx, frame, env, h[1], _depth + 1)
+            else:
+                out.add("?")
+        return out
+    if isinstance(e, ast.Subscript):
+        return element_sources(ctx, frame, env, e.value, _depth + 1)
+    if isinstance(e, ast.Call):
+        cal = ctx.an.scope(frame).callee(e)
+        if cal.kind == "pkg" and any(t.name == "_get_running_task" for t in cal.targets):
+            return {"R"}
+        if isinstance(e.func, ast.Attribute) and e.func.attr in ("pop", "get", "setdefault") and e.args:
+            return element_sources(ctx, frame, env, e.func.value, _depth + 1)
+        t = ctx.an.spliced_at.get(id(e))
+        if t is not None:
+            sub = bind_args(e, t, frame, env)
+            out = set()
+            for r in ctx.an.scope(t)._own_nodes():
+                if isinstance(r, ast.Return) and r.value is not None:
+                    out |= value_sources(ctx, t, sub, r.value, _depth + 1)
+            return out or {"?"}
+    return {"?"}
+
+
+def element_sources(ctx: Ctx, frame: FuncInfo, env, coll: Optional[ast.AST], _depth: int = 0) -> Set[str]:
+    """sources of the elements (values) of a collection expression"""
+    from ..cfg import strip_cast
+
+    if coll is None or _depth > 10:
+        return {"?"}
+    coll = strip_cast(coll)
+    p = ctx.eff.paths(frame).of(coll)
+    p = ctx.eff.rebase(p, frame, env) if p is not None else None
+    if p is not None:
+        if "_group_meta_tasks_running" in p or "_meta_tasks_cancelled" in p:
+            return {"META"}
+        for fld, tag in REG_OF_FIELD.items():
+            if re.search(r"\." + fld + r"(\[\])*$", p):
+                return {tag}
+    if isinstance(coll, (ast.Tuple, ast.List, ast.Set)):
+        out: Set[str] = set()
+        for x in coll.elts:
+            out |= value_sources(ctx, frame, env, x.value if isinstance(x, ast.Starred) else x, _depth + 1) if not isinstance(x, ast.Starred) \
+                else element_sources(ctx, frame, env, x.value, _depth + 1)
+        return out
+    if isinstance(coll, (ast.ListComp, ast.SetComp, ast.GeneratorExp)):
+        return value_sources(ctx, frame, env, coll.elt, _depth + 1)
+    if isinstance(coll, ast.Call):
+        fn = coll.func
+        if isinstance(fn, ast.Name) and fn.id in ("list", "tuple", "set", "sorted", "reversed", "iter", "frozenset") and len(coll.args) == 1:
+            return element_sources(ctx, frame, env, coll.args[0], _depth + 1)
+        if isinstance(fn, ast.Attribute) and fn.attr in ("values", "copy") and not coll.args:
+            return element_sources(ctx, frame, env, fn.value, _depth + 1)
+    if isinstance(coll, ast.Name):
+        sc = ctx.an.scope(frame)
+        if coll.id in sc.params and env and coll.id in env and not sc.defs.get(coll.id):
+            caller, arg, cenv = env[coll.id]
+            return element_sources(ctx, caller, cenv, arg, _depth + 1)
+        out = set()
+        hows = sc.defs.get(coll.id, [])
+        if not hows:
+            return {"?"}
+        for h in hows:
+            v = h[1] if h[0] == "assign" else (h[2] if h[0] == "ann" else None)
+            if v is None:
+                # a loop variable that is itself a container (for container in (a, b, c))
+                if h[0] == "iter":
+                    it = strip_cast(h[1])
+                    if isinstance(it, (ast.Tuple, ast.List)):
+                        for x in it.elts:
+                            out |= element_sources(ctx, frame, env, x, _depth + 1)
+                        continue
+                out.add("?")
+                continue
+            out |= element_sources(ctx, frame, env, v, _depth + 1)
+        # elements added in place: x.append(v) / x.add(v) / x.extend(c) / x.update(c)
+        for node in sc._own_nodes():
+            if isinstance(node, ast.Call) and isinstance(node.func, ast.Attribute) and isinstance(node.func.value, ast.Name) and node.func.value.id == coll.id and node.args:
+                if node.func.attr in ("append", "add", "insert"):
+                    out |= value_sources(ctx, frame, env, node.args[-1], _depth + 1)
+                elif node.func.attr in ("extend", "update"):
+                    out |= element_sources(ctx, frame, env, node.args[0], _depth + 1)
+        return out
+    return {"?"}
+
+
+def r_cancel_targets(ctx: Ctx, rule: str):
+    """Only tasks taken from the running registry (or spawners) are cancelled.  A task filed as cancelled or ended may still be
+    inside its cancel/end callback; cancelling it again throws a second CancelledError into that callback."""
+    rep = ctx.rep
+    rep.rule(rule, "WHAT(Task.cancel in the pool classes): the receiver of every cancel() is an entry of _tasks_running (directly, through "
+                   "_get_running_task, or a collection of such) or a spawner task - never an entry of _tasks_cancelled / _tasks_ended, whose "
+                   "callbacks may still be in progress")
+    n = 0
+    for f in ctx.pool_functions():
+        for c in ctx.distinct_sites(ctx.nodes(f, lambda m: any(e.kind in ("cancel", "maybe-cancel") for e in ctx.eff.of_node(m)))):
+            copies = [x for x in ctx.nodes(f, lambda m: m.ast is c.ast and m.op == c.op)]
+            recv = c.ast.func.value if isinstance(c.ast, ast.Call) and isinstance(c.ast.func, ast.Attribute) else None
+            src: Set[str] = set()
+            for x in copies:
+                src |= value_sources(ctx, x.func, x.env, recv)
+            n += 1
+            bad = src & {"C", "E"}
+            ok: Optional[bool] = False if bad else (None if "?" in src or not src else True)
+            rep.ob(rule, "a task that is cancelled is one filed as running (or a spawner)", ok, node=c,
+                   detail=f"possible sources of the receiver: {sorted(src)}" + ("" if not bad else
+                          "; a task filed as cancelled/ended can still be inside its cancel/end callback: a second cancel() interrupts that callback"))
+    rep.floor(rule, "Task.cancel sites in the pool classes", n, 3)
 
 
 # ------------------------------------------------------------------------ C07
